@@ -57,6 +57,7 @@ var objNames = []string{"a/b", "b", "a.b", "..a", "s.txt"}
 // universe is everything that exists, inside and outside the bucket under test.
 type universe struct {
 	disk     bool
+	base     string
 	dir      string
 	levels   []string
 	mem      storage.ReadWriteBucket
@@ -65,7 +66,8 @@ type universe struct {
 }
 
 func newUniverse(disk bool, dir string, emptyAt string) (*universe, error) {
-	u := &universe{disk: disk, dir: dir, emptyAt: emptyAt}
+	// guard levels: an escaping path of up to 6 ".." components still lands inside base
+	u := &universe{disk: disk, base: dir, dir: filepath.Join(dir, "g1", "g2", "g3", "g4", "g5", "g6"), emptyAt: emptyAt}
 	if disk {
 		u.levels = []string{"w", "o", "root", "m", "n"}
 	} else {
@@ -77,12 +79,33 @@ func newUniverse(disk bool, dir string, emptyAt string) (*universe, error) {
 	return u, nil
 }
 
+// resetAndSnapshot is used after an operation damaged the universe beyond targeted repair.
+func (u *universe) guardEntries() map[string]string {
+	out := map[string]string{}
+	if !u.disk {
+		return out
+	}
+	for d := filepath.Dir(u.dir); len(d) > len(u.base); d = filepath.Dir(d) {
+		out["<guard>"+strings.TrimPrefix(filepath.Join(d, "guard.txt"), u.base)] = "guard"
+	}
+	return out
+}
+
 func (u *universe) reset() error {
-	u.pristine = map[string]string{}
+	u.pristine = u.guardEntries()
 	ctx := context.Background()
 	if u.disk {
-		if err := os.RemoveAll(filepath.Join(u.dir, "w")); err != nil {
+		if err := os.RemoveAll(filepath.Join(u.base, "g1")); err != nil {
 			return err
+		}
+		if err := os.MkdirAll(u.dir, 0o755); err != nil {
+			return err
+		}
+		// sentinels in the guard levels
+		for d := filepath.Dir(u.dir); len(d) > len(u.base); d = filepath.Dir(d) {
+			if err := os.WriteFile(filepath.Join(d, "guard.txt"), []byte("guard"), 0o644); err != nil {
+				return err
+			}
 		}
 	} else {
 		u.mem = storagemem.NewReadWriteBucket()
@@ -132,6 +155,9 @@ func (u *universe) repair(changed []string) error {
 		return u.reset()
 	}
 	for _, ch := range changed {
+		if strings.HasPrefix(ch, "<guard>") {
+			return u.reset()
+		}
 		p := filepath.Join(u.dir, ch)
 		if want, ok := u.pristine[ch]; ok {
 			if err := os.MkdirAll(filepath.Dir(p), 0o755); err != nil {
@@ -177,7 +203,13 @@ func (u *universe) isLevelDir(rel string) bool {
 func (u *universe) snapshot() (map[string]string, error) {
 	out := map[string]string{}
 	if u.disk {
-		err := filepath.Walk(u.dir, func(p string, info os.FileInfo, err error) error {
+		name := func(p string) string {
+			if strings.HasPrefix(p, u.dir) {
+				return strings.TrimPrefix(p, u.dir)
+			}
+			return "<guard>" + strings.TrimPrefix(p, u.base)
+		}
+		err := filepath.Walk(u.base, func(p string, info os.FileInfo, err error) error {
 			if err != nil {
 				return err
 			}
@@ -186,9 +218,9 @@ func (u *universe) snapshot() (map[string]string, error) {
 				if err != nil {
 					return err
 				}
-				out[strings.TrimPrefix(p, u.dir)] = string(data)
+				out[name(p)] = string(data)
 			} else if !info.IsDir() {
-				out[strings.TrimPrefix(p, u.dir)] = "<special " + info.Mode().String() + ">"
+				out[name(p)] = "<special " + info.Mode().String() + ">"
 			}
 			return nil
 		})
